@@ -125,6 +125,20 @@ class Worker:
             pass
 
 
+def stuck_location(stderr_text: str) -> str | None:
+    """Innermost non-harness frame of the last faulthandler dump in a worker's stderr."""
+    import re
+    i = stderr_text.rfind("most recent call first")
+    if i < 0:
+        return None
+    for m in re.finditer(r'File "([^"]+)", line \d+ in (\S+)', stderr_text[i:]):
+        fn = m.group(1)
+        if "/vlib/" in fn or "/checks/" in fn:
+            continue
+        return "/".join(fn.split("/")[-2:]) + ":" + m.group(2)
+    return None
+
+
 def run_cases(task: str, cases, *, workers: int | None = None, deadline_s: float = 60.0,
               hashseed=0, rlimit_as: int | None = None, init: dict | None = None,
               env: dict | None = None, fresh_worker_per_case: bool = False):
@@ -162,7 +176,8 @@ def run_cases(task: str, cases, *, workers: int | None = None, deadline_s: float
                 if obs == "timeout":
                     cpu = w.cpu_seconds()
                     w.kill()
-                    out.put((c, {"_timeout": True, "cpu_s": cpu, "stderr": w.stderr_tail()}))
+                    err = w.stderr_tail(60)
+                    out.put((c, {"_timeout": True, "cpu_s": cpu, "stderr": err[-1500:], "_stuck_at": stuck_location(err)}))
                     w = None
                 elif obs is None:
                     w.kill()
